@@ -385,7 +385,17 @@ SUBM = obj(
     body="@serialized\ndef info(self) -> Big:\n    return Big(self.n, 'y')",
     smethods=(("info", "info", BIG, "method"),),
 )
+RO = obj(
+    "Ro",
+    F("a", INT),
+    F("ro", tup(INT, STR), default=V("(0, '')"), skip=("deserialization",)),
+    body="@serialized\ndef pair(self) -> Tuple[int, str]:\n    return (self.a, 's')\n"
+    "@serialized\ndef one(self) -> Literal['x']:\n    return 'x'\n"
+    "@serialized\ndef ol(self) -> Optional[List[int]]:\n    return None if self.a < 0 else [self.a]",
+    smethods=(("pair", "pair", tup(INT, STR), "method"), ("one", "one", lit("x"), "method"), ("ol", "ol", opt(lst(INT)), "method")),
+)
 SER_OBJECTS: Dict[str, Tuple[Sp, str]] = {
+    "Ro": (RO, ""),
     "TDA": (TDA, ""),
     "SubMethod": (SUBM, SUBM_SRC),
     "TDS": (TDS, SER_SRC),
